@@ -326,6 +326,7 @@ func runC03(c *kit.Ctx) {
 		c.Check(e == nil, fn, "handback-delivered", s.Pos(), "on the non-nil edge the same call is completed with the error", "a non-nil error from trySend can reach an exit without completing the call: "+c.BlockPath(e))
 	}
 	handbackErrorUnchanged(c)
+	failedSendClaimsItsCall(c)
 	// trySend returns non-nil only where it unregistered
 	kit.Instrs(trySend, func(in ssa.Instruction) {
 		r, ok := in.(*ssa.Return)
@@ -478,6 +479,7 @@ func runC03(c *kit.Ctx) {
 	}
 
 	unbufferedHandoff(c)
+	closedErrorOnlyWhenClosed(c)
 
 	// ---- R6 ---------------------------------------------------------------
 	c.StartRule("R6", "reader errors are connection failures", 6)
